@@ -118,6 +118,8 @@ impl Engine for HrEngine {
             // ---------------------------------------------------------------- C10: non-reloadable things
             1 => {
                 let mode = *rng.pick(&["hot", "hot", "nohot-ctor", "nohot-src"]);
+                // C10 quantifies over all constructors: a quarter of the cases run on a LocalAssetCache (never has a reloader)
+                let fe = if rng.chance(1, 4) { *rng.pick(&["local", "localany"]) } else { fe };
                 l.push(format!("cfg {fe} {mode}"));
                 l.push("family nonreloadable".into());
                 for id in ["a", "b", "c"] {
